@@ -11,6 +11,7 @@ package art
 
 import (
 	"math"
+	"unsafe"
 )
 
 const (
@@ -50,6 +51,7 @@ type hk[K any] struct {
 	onInsert    func(K) // kind-specific premise on stored keys (collation: the collator tells stored strings apart)
 	lv          *leafView
 	state       func(t Tree[K, uint64]) vpTreeState
+	tkeyOf      func(K) []byte // the search key the tree derives from k (codec output); nil: content clause of C11 skipped
 	// byte-string kinds only
 	bytesOf func(K) []byte
 	isAlpha bool
@@ -138,6 +140,24 @@ func collect[K any](seq func(yield func(K, uint64) bool)) *yielded[K] {
 }
 
 // sortedContent: y is exactly the live content restricted by in(), strictly ascending (or descending).
+// leavesAreContent: every live key of the reference is the search key of a leaf the structural walker reaches
+// (with the current value); together with the cardinality clause the reachable leaves are exactly the content.
+func leavesAreContent[K any](h *hk[K], st vpTreeState, r *refMap[K]) bool {
+	var ls []unsafe.Pointer
+	wfLeaves(st.root, &ls, 0)
+	ok := true
+	for i := range r.ents {
+		e := &r.ents[i]
+		tk := h.tkeyOf(e.k)
+		hit := false
+		for _, p := range ls {
+			hit = vpOr(hit, vpAnd(vpEqBytes(st.lv.tkey(p), tk), st.lv.val(p) == e.v))
+		}
+		ok = vpAnd(ok, vpOr(!e.live, hit))
+	}
+	return ok
+}
+
 func sortedContent[K any](r *refMap[K], y *yielded[K], desc bool, in func(K) bool) bool {
 	ok := true
 	for i := 0; i+1 < len(y.ks); i++ {
@@ -180,9 +200,10 @@ func runHist[K any](h *hk[K]) {
 	vpPoolMode(vpParam(3))
 	nOps := vpParam(4)
 	t := h.newTree()
-	var emptyRetained uint64
+	var emptyRetained, emptyStruct uint64
 	if mask&ckRetain != 0 {
 		emptyRetained = vpRetainedTree(t)
+		emptyStruct = vpRetained(h.state(t))
 	}
 	ref := &refMap[K]{h: h}
 	var inserted []K
@@ -235,8 +256,13 @@ func runHist[K any](h *hk[K]) {
 		nextConcrete := i+1 < nOps && (vpParam(pi) == opInsertC || vpParam(pi) == opDeleteC)
 		if mask&ckShape != 0 && !(wasConcrete && nextConcrete) {
 			st := h.state(t)
+			st.lv.full256 = false
 			vpAssert(wellFormed(st.lv, st.root, st.size), "C11 index well-formed after op")
+			vpAssert(!st.lv.full256, "C11 recorded fan-out of a node256 with all 256 children is not 256 (uint8 counter)")
 			vpAssert(uint64(st.size) == ref.count(), "C11 reachable keys equal the reference cardinality")
+			if h.tkeyOf != nil {
+				vpAssert(leavesAreContent(h, st, ref), "C11 every stored key is reachable in the index with its value")
+			}
 		}
 	}
 	nProbe := vpParam(pi)
@@ -310,7 +336,7 @@ func runHist[K any](h *hk[K]) {
 	if mask&ckRetain != 0 {
 		cyc, spec := vpParam(pi), vpParam(pi+1)
 		pi += 2
-		checkRetain(h, t, ref, cyc, spec, emptyRetained, inserted)
+		checkRetain(h, t, ref, cyc, spec, emptyRetained, emptyStruct, inserted)
 	}
 }
 
@@ -320,7 +346,7 @@ func runHist[K any](h *hk[K]) {
 // Under the executor vpRetainedTree is the exact byte count of the objects reachable in its heap model and
 // the cycle runs twice; natively it is the live heap after two forced collections and the cycle runs 100000
 // times, so a per-operation leak shows as growth far above the slack.
-func checkRetain[K any](h *hk[K], t Tree[K, uint64], ref *refMap[K], cyc, spec int, rEmpty uint64, inserted []K) {
+func checkRetain[K any](h *hk[K], t Tree[K, uint64], ref *refMap[K], cyc, spec int, rEmpty, emptyStruct uint64, inserted []K) {
 	k := mkKey(h, spec)
 	if h.isAlpha {
 		// the cycle inserts k: keep it outside the known class K0 (judged by C01)
@@ -402,6 +428,9 @@ func checkRetain[K any](h *hk[K], t Tree[K, uint64], ref *refMap[K], cyc, spec i
 		// a tree emptied by deletion holds what a new tree holds (codec scratch of collation trees: the last key)
 		slack := h.retainSlack
 		vpAssert(vpNoGrowth(rEmpty, r3, slack), "C17 an emptied tree retains more than a new tree plus a small constant")
+		// the index itself (nodes and leaves reachable from the root) is measured exactly on both sides: the live-heap
+		// measure of a native replay cannot see a few hundred bytes, the structural one can
+		vpAssert(vpRetained(h.state(t)) <= emptyStruct, "C17 an emptied tree still holds index nodes")
 	}
 }
 
@@ -760,6 +789,7 @@ func hkAlphaBytes() *hk[[]byte] {
 		less:    vpLessBytes,
 		trace:   traceBytes,
 		bytesOf: func(k []byte) []byte { return k },
+		tkeyOf:  func(k []byte) []byte { return append(append([]byte(nil), k...), 0) },
 		isAlpha: true,
 	}
 }
@@ -780,6 +810,7 @@ func hkAlphaString() *hk[string] {
 		less:    func(a, b string) bool { return a < b },
 		trace:   func(tag string, k string) { traceBytes(tag, []byte(k)) },
 		bytesOf: func(k string) []byte { return []byte(k) },
+		tkeyOf:  func(k string) []byte { return append([]byte(k), 0) },
 		isAlpha: true,
 	}
 }
@@ -793,6 +824,7 @@ func hkUnsigned[K uints](gen func() K) *hk[K] {
 			return vpTreeState{tt.root, tt.size, lv}
 		},
 		newTree: func() Tree[K, uint64] { return NewUnsignedBinaryTree[K, uint64]() },
+		tkeyOf:  func(k K) []byte { b, _ := UnsignedBinaryKey[K]{}.Transform(k); return b },
 		newKey:  func(int) K { return gen() },
 		concKey: func(spec int) K { return K(spec) },
 		clone:   func(k K) K { return k },
@@ -811,6 +843,7 @@ func hkSigned[K ints](gen func() K) *hk[K] {
 			return vpTreeState{tt.root, tt.size, lv}
 		},
 		newTree: func() Tree[K, uint64] { return NewSignedBinaryTree[K, uint64]() },
+		tkeyOf:  func(k K) []byte { b, _ := SignedBinaryKey[K]{}.Transform(k); return b },
 		newKey:  func(int) K { return gen() },
 		concKey: func(spec int) K { return K(spec) },
 		clone:   func(k K) K { return k },
@@ -850,6 +883,7 @@ func hkF32() *hk[float32] {
 			return vpTreeState{tt.root, tt.size, lv}
 		},
 		newTree: func() Tree[float32, uint64] { return NewFloatBinaryTree[float32, uint64]() },
+		tkeyOf:  func(k float32) []byte { b, _ := FloatBinaryKey[float32]{}.Transform(k); return b },
 		newKey:  func(int) float32 { return vpF32() },
 		concKey: func(spec int) float32 { return math.Float32frombits(uint32(spec)) },
 		// carved out of C03: NaN bounds and the pair (-0,+0)
@@ -875,6 +909,7 @@ func hkF64() *hk[float64] {
 			return vpTreeState{tt.root, tt.size, lv}
 		},
 		newTree: func() Tree[float64, uint64] { return NewFloatBinaryTree[float64, uint64]() },
+		tkeyOf:  func(k float64) []byte { b, _ := FloatBinaryKey[float64]{}.Transform(k); return b },
 		newKey:  func(int) float64 { return vpF64() },
 		concKey: func(spec int) float64 { return float64(math.Float32frombits(uint32(spec))) },
 		badBound: func(a, b float64) bool {
